@@ -410,3 +410,29 @@ def _eval_handle(g, od, invertible, requested):
         return None
 
     return _walk_cfg(g, env, on_block)
+
+
+@rule("R-NAME-SIBLING", ["C03", "C04"])
+def r_name_sibling(cx):
+    """Op::op classifies the *operator name* (prefix modifiers rotated away by the tokenizer) while
+    RawParameters::next classifies a whole definition with is_resource_name(): the two agree only if
+    is_resource_name itself goes through operator_name()"""
+    cands = [n for n in cx.f.fn_names() if n.endswith("Tokenize>::is_resource_name") or n.endswith("::is_resource_name")]
+    cands = [n for n in cands if "token" in n]
+    cx.count("R-NAME-SIBLING", "impls", len(cands))
+    if not cands:
+        cx.ob("R-NAME-SIBLING", "anchor", False, "anchor-missing: Tokenize::is_resource_name")
+        return
+    import elems
+    for name in cands:
+        f = cx.f.fn(name)
+        r = elems.return_term(f)
+        via = _calls_in(r, lambda c: c.endswith("operator_name")) if r is not None else []
+        own_text_ops = [c for c in (_calls_in(r, lambda c: True) if r is not None else [])
+                        if c[1].split("::")[-1] in ("split_whitespace", "split", "starts_with", "find", "next")]
+        ok = bool(via) and not own_text_ops
+        cx.ob("R-NAME-SIBLING", name, ok,
+              "is_resource_name() is decided on operator_name(): prefix modifiers and sugar cannot hide a macro name" if ok
+              else "is_resource_name() does its own text inspection instead of going through operator_name(): a macro "
+                   "step with a prefix modifier (`omit_fwd foo:bar`, `< foo:bar`) is not recognised as a macro call by "
+                   "RawParameters::next although Op::op resolves it as one", cx.where(f.d["span"]))
